@@ -18,6 +18,8 @@ struct Param {
     index: Option<u32>,
     value: u32,
     textual: bool,
+    /// nested reorderable container inside an anonymous sibling: ANNOTATIONS / ANNOTATION / ANNOTATION-ORIGIN
+    annotations: Vec<String>,
 }
 
 #[derive(Clone, Debug)]
@@ -84,7 +86,9 @@ fn gen_cont(t: &mut Tape, name: String, depth: usize) -> Cont {
     let nparams = t.below(5);
     let mut params = vec![];
     for i in 0..nparams {
-        params.push(Param { defref: format!("/def/c/p{}", t.below(4)), index: if t.chance(90) { Some(t.below(12) as u32) } else { None }, value: (i as u32) * 7 + t.below(5) as u32, textual: t.chance(100) });
+        let na = if t.chance(110) { 1 + t.below(3) } else { 0 };
+        let annotations = (0..na).map(|_| ["z", "a", "m", "b2", "b10", "k"][t.below(6)].to_string()).collect();
+        params.push(Param { defref: format!("/def/c/p{}", t.below(4)), index: if t.chance(90) { Some(t.below(12) as u32) } else { None }, value: (i as u32) * 7 + t.below(5) as u32, textual: t.chance(100), annotations });
     }
     // parameters must be pairwise different (identical ones are indistinguishable anyway)
     let nsub = if depth < 2 { t.below(4) } else { 0 };
@@ -165,6 +169,7 @@ pub struct Ordered {
     containers: bool,
     subcontainers: bool,
     params: bool,
+    annotations: bool,
 }
 
 pub fn ordered_flags() -> Ordered {
@@ -175,7 +180,7 @@ pub fn ordered_flags() -> Ordered {
                 name: "p".into(),
                 elems: vec![
                     Elem::Compu("c".into(), vec![(0, None)]),
-                    Elem::Ecuc("e".into(), vec![Cont { name: "k".into(), index: None, defref: "/d".into(), params: vec![Param { defref: "/d/p".into(), index: None, value: 1, textual: false }], subs: vec![Cont { name: "s".into(), index: None, defref: "/d".into(), params: vec![], subs: vec![] }] }]),
+                    Elem::Ecuc("e".into(), vec![Cont { name: "k".into(), index: None, defref: "/d".into(), params: vec![Param { defref: "/d/p".into(), index: None, value: 1, textual: false, annotations: vec!["o".into()] }], subs: vec![Cont { name: "s".into(), index: None, defref: "/d".into(), params: vec![], subs: vec![] }] }]),
                 ],
             }],
         };
@@ -188,6 +193,7 @@ pub fn ordered_flags() -> Ordered {
             containers: ord(ElementName::Containers),
             subcontainers: ord(ElementName::SubContainers),
             params: ord(ElementName::ParameterValues),
+            annotations: ord(ElementName::Annotations),
         }
     })
 }
@@ -196,6 +202,11 @@ fn permute_cont2(c: &mut Cont, sm: &mut SplitMix, o: Ordered) -> bool {
     let mut ch = false;
     if !o.params {
         ch |= permute(&mut c.params, sm);
+    }
+    if !o.annotations {
+        for p in &mut c.params {
+            ch |= permute(&mut p.annotations, sm);
+        }
     }
     if !o.subcontainers {
         ch |= permute(&mut c.subs, sm);
@@ -263,6 +274,12 @@ fn build_cont(parent: &Element, c: &Cont) -> R<()> {
             dr.set_attribute(AttributeName::Dest, CharacterData::Enum(dest))?;
             dr.set_character_data(p.defref.clone())?;
             pe.create_sub_element(ElementName::Value)?.set_character_data(p.value.to_string())?;
+            if !p.annotations.is_empty() {
+                let an = pe.create_sub_element(ElementName::Annotations)?;
+                for o in &p.annotations {
+                    an.create_sub_element(ElementName::Annotation)?.create_sub_element(ElementName::AnnotationOrigin)?.set_character_data(o.clone())?;
+                }
+            }
         }
     }
     if !c.subs.is_empty() {
